@@ -51,7 +51,8 @@ def handleOwn (op : String) (j : Json) : Option (Except String Json) :=
     let p ← C05.getProfile j "profile"
     let v ← C06.getPairwise j "votes"
     let name ← j.getObjValAs? String "name"
-    if !sameMap (Condorcet.rankedToCondorcet p) v then
+    let ab := (j.getObjValAs? Bool "bottom").toOption.getD true
+    if !sameMap (if ab then Condorcet.rankedToCondorcet p else Condorcet.rankedToCondorcetNoBottom p) v then
       throw "RankedToCondorcetVotes: the model's dictionary differs (as a map) from the implementation's"
     match name with
     | "winner" => pure (toJson (C11F.CondorcetSet.winner.eval v))
